@@ -1,6 +1,7 @@
 """C14 — parsed objects are values: equality, hashing, copying and repr agree."""
 import copy
 import pickle
+import sys
 import random
 
 from .. import core, trees
@@ -88,6 +89,49 @@ def safe(f):
         return ('ok', f())
     except Exception as e:                      # noqa
         return ('exc', type(e).__name__)
+
+
+CHILD = r'''
+import pickle, sys
+sys.path.insert(0, sys.argv[1])
+from sourcer import Grammar
+g = Grammar(sys.argv[2])
+objs = [g.A('a', 'b'), g.A(['x', 'yy'], ('t', 1)), g.B({'k': 'v'}), g.T3('p', g.B('c'), [g.E0(), 'zz']), g.Infix('l', '+', g.A('a', 'b')), g.E0()]
+for o in objs:
+    hash(o)                    # the hash is computed (and remembered by the object) in THIS process
+    o._metadata.position_info = (1, 2)
+sys.stdout.buffer.write(pickle.dumps(objs))
+'''
+
+
+def other_process_pickles(R):
+    """objects pickled by ANOTHER process (whose strings hash differently): the unpickled objects are equal to freshly
+    built ones here, so they must hash like them and be found in sets and dicts"""
+    import os
+    import subprocess
+    g = trees.module()
+    fresh = [g.A('a', 'b'), g.A(['x', 'yy'], ('t', 1)), g.B({'k': 'v'}), g.T3('p', g.B('c'), [g.E0(), 'zz']), g.Infix('l', '+', g.A('a', 'b')), g.E0()]
+    for seed in ('1', '2', '12345'):
+        env = dict(os.environ, PYTHONHASHSEED=seed)
+        p = subprocess.run([sys.executable, '-c', CHILD, core.REPO, trees.GRAMMAR], capture_output=True, env=env, timeout=120)
+        R.count('pickle-other-process', seed, nontrivial=True)
+        if p.returncode != 0:
+            R.counterexample('pickle-other-process', 'child-process-failed', {'hash_seed': seed}, 'a pickle', p.stderr.decode()[-300:])
+            continue
+        try:
+            objs = pickle.loads(p.stdout)
+        except Exception as e:          # noqa
+            R.counterexample('pickle-other-process', 'unpickling-failed:' + type(e).__name__, {'hash_seed': seed}, 'objects', str(e)[:200])
+            continue
+        for o, f in zip(objs, fresh):
+            R.count('pickle-other-process', (seed, repr(f)), nontrivial=True)
+            ok = o == f and f == o and hash(o) == hash(f) and o in {f} and o._metadata.position_info == (1, 2)
+            if not ok:
+                R.counterexample('pickle-other-process', 'unpickled-equal-object-hashes-differently',
+                                 {'object': repr(f), 'pickled_with_PYTHONHASHSEED': seed, 'unpickled_with_PYTHONHASHSEED': os.environ.get('PYTHONHASHSEED')},
+                                 'equal, same hash, found in a set of its equals', {'equal': o == f, 'hash_equal': hash(o) == hash(f), 'in_set': o in {f}})
+            else:
+                R.traces += 1
 
 
 def run(R):
@@ -224,6 +268,7 @@ def run(R):
     R.samples.append({'a': meta[0][0]['a'], 'b': meta[0][0]['b'], '==': str(meta[0][1])})
     R.assumptions += ['floats are not generated; dicts take part in the ==/hash/copy checks on the implementation but are outside the Coq model',
                       'builtin hash respects == on scalars (Python\'s guarantee; hypothesis of C14_eq_implies_hash)']
+    other_process_pickles(R)
     return R.finish(
         rule='random trees of parsed objects (7 classes, arity 0..3) with scalar, None, list, tuple, dict and nested object fields '
              'and shared sub-objects; pairs/triples (copy, one-step mutations: leaf, class, list<->tuple, permuted dict); '
